@@ -53,6 +53,8 @@ pub struct Held {
 
 pub struct World {
     pub server: Option<HttpServer>,
+    /// a placeholder on descriptor 0 (scenario `descriptor-zero`): released right after the first client connected
+    pub park0: Option<std::fs::File>,
     pub path: String,
     pub epfd: RawFd,
     pub listener_fd: RawFd,
@@ -152,6 +154,9 @@ pub fn fd_ready(fd: RawFd) -> bool {
 }
 
 static mut SOCK_COUNTER: u64 = 0;
+/// set by a scenario right before it creates a world: descriptor 0 of the process is free and is to be kept free (parked)
+/// until the first client connects, so that the SERVER's accept lands on the number 0
+pub static mut WANT_ZERO: bool = false;
 
 impl World {
     pub fn new(rec: &mut Rec, with_kill: bool, limit: Option<usize>) -> World {
@@ -164,6 +169,18 @@ impl World {
         let path = format!("{}/.mh-{}-{}.sock", dir, std::process::id(), n);
         let _ = std::fs::remove_file(&path);
         let base = open_fds();
+        // SAFETY: single-threaded harness
+        let want_zero = unsafe {
+            let w = WANT_ZERO;
+            WANT_ZERO = false;
+            w
+        };
+        let park0: Option<std::fs::File> = if want_zero {
+            let f = std::fs::File::open("/dev/null").expect("park");
+            if f.as_raw_fd() == 0 { Some(f) } else { None }
+        } else {
+            None
+        };
         let mut server = HttpServer::new(&path).expect("bind");
         // both documented orders occur: the kill switch installed before `start_server` (every other world) or after it
         let mut kill_pair: Option<(EventFd, RawFd)> = None;
@@ -182,6 +199,7 @@ impl World {
         let listener_fd = regs.iter().map(|x| x.0).find(|fd| Some(*fd) != kfd_opt).unwrap_or(-1);
         let mut w = World {
             server: Some(server),
+            park0,
             path,
             epfd,
             listener_fd,
@@ -254,6 +272,8 @@ impl World {
         let placeholders: Vec<std::fs::File> = if reserve { (0..2).filter_map(|_| std::fs::File::open("/dev/null").ok()).collect() } else { vec![] };
         let s = UnixStream::connect(&self.path).expect("connect");
         drop(placeholders);
+        // descriptor 0 becomes free only now: the client's socket has its number already, the server's accept gets 0
+        drop(self.park0.take());
         s.set_nonblocking(true).unwrap();
         let i = self.clients.len();
         self.clients.push(ClientSim {
